@@ -876,6 +876,16 @@ func genScenario(rng *rand.Rand, kind string) Scenario {
 			sc.Ops = append(sc.Ops, Op{Op: "tag", N: 5, Ref: ref()})
 		}
 		sc.Ops = append(sc.Ops, Op{Op: "delete", N: 3})
+	} else if universe == 0 && rng.Intn(2) == 0 {
+		// a referrer with two tags, one of which is moved to another manifest; then its subject is deleted with automatic
+		// garbage collection: the referrer still carries a tag and stays
+		sc.AutoGC = true
+		sc.Ops = nil
+		for _, p := range perm {
+			sc.Ops = append(sc.Ops, Op{Op: "push", N: p + 1})
+		}
+		sc.Ops = append(sc.Ops, Op{Op: "tag", N: 3, Ref: refs[0]}, Op{Op: "tag", N: 3, Ref: refs[1]}, Op{Op: "tag", N: 4, Ref: refs[0]},
+			Op{Op: "delete", N: 2})
 	} else if universe == 2 && rng.Intn(2) == 0 {
 		// an image with a non-distributable layer: tagged, garbage collected, then deleted with automatic collection
 		sc.AutoGC = true
